@@ -15,11 +15,13 @@ NCPU = os.cpu_count() or 4
 
 FORBIDDEN = re.compile(r"\b(Admitted|admit|Axiom|Parameter|Parameters|Conjecture|Admit Obligations|bypass_check|Unset Guard Checking|Unset Positivity Checking|Unset Universe Checking|type-in-type|impredicative-set)\b")
 
-BASE_FLAGS = ["-std=c++11", "-DHMAC_CPP_VERIF", "-DHMAC_CPP_ENABLE_MLOCK", "-DHAVE_EXPLICIT_BZERO"]
+# the project's own CMake configuration on this platform: page locking on, HAVE_EXPLICIT_BZERO NOT defined (its check looks for explicit_bzero in
+# <strings.h>, glibc declares it in <string.h>: /repo/_build/CMakeCache.txt has HAVE_EXPLICIT_BZERO empty), so secure_zero is the volatile loop
+BASE_FLAGS = ["-std=c++11", "-DHMAC_CPP_VERIF", "-DHMAC_CPP_ENABLE_MLOCK"]
 
 # build configurations: the primary one (every tier) and the matrix the thorough tier adds.
 # defs = None means BASE_FLAGS; otherwise the complete list of -std/-D flags.
-PRIMARY = dict(label="g++ -O2 +explicit_bzero +mlock", compiler="g++", opt="-O2", defs=None)
+PRIMARY = dict(label="g++ -O2 -explicit_bzero +mlock", compiler="g++", opt="-O2", defs=None)
 def _defs(bzero, mlock):
     return ["-std=c++11", "-DHMAC_CPP_VERIF"] + (["-DHMAC_CPP_ENABLE_MLOCK"] if mlock else []) + (["-DHAVE_EXPLICIT_BZERO"] if bzero else [])
 MATRIX_PURE = [
@@ -29,7 +31,9 @@ MATRIX_PURE = [
 ]
 MATRIX_ZEROING = [dict(label="%s %s %sexplicit_bzero %smlock" % (cc, o, "+" if bz else "-", "+" if ml else "-"), compiler=cc, opt=o, defs=_defs(bz, ml))
                   for cc, o in (("g++", "-O0"), ("g++", "-O2"), ("g++", "-O3"), ("clang++", "-O2"))
-                  for bz in (True, False) for ml in (True, False) if not (cc == "g++" and o == "-O2" and bz and ml)]
+                  for bz in (True, False) for ml in (True, False) if not (cc == "g++" and o == "-O2" and not bz and ml)]
+# quick tier of the properties that depend on the zeroing back-end: the explicit_bzero build as a second configuration
+CONFIG_BZERO = dict(label="g++ -O2 +explicit_bzero +mlock", compiler="g++", opt="-O2", defs=_defs(True, True))
 
 TRUSTED_BASE = [
     "Coq 8.16.1 kernel incl. the vm_compute evaluator (finite sweeps); no native_compute",
@@ -37,7 +41,7 @@ TRUSTED_BASE = [
     "specs (coq/Spec_*.v) as transcriptions of FIPS 180-4, RFC 2104/8018/5869/4226/6238/4648 and the documented contracts",
     "models (coq/Model_*.v) as descriptions of the C++; tied to /repo only by this differential correspondence (generator lib/props, drivers harness/*.cpp, ocaml/run.ml)",
     "extraction with ExtrOcamlBasic only (bool, option, unit, list, prod, sumbool, sumor -> OCaml; andb/orb inlined); N, Z, positive, nat stay Coq datatypes; OCaml 4.13.1",
-    "g++ 12.2 / libstdc++ used to build the drivers from /repo's working tree",
+    "g++ 12.2 / libstdc++ used to build the drivers from /repo's working tree (flags as the project's own CMake build on this platform: -DHMAC_CPP_ENABLE_MLOCK, no HAVE_EXPLICIT_BZERO)",
 ]
 
 
@@ -266,6 +270,9 @@ def run_lines(exe, lines, rundir, tag, timeout=3000, env=None, shards=None):
             # the process died: mark the missing lines
             tail = (err or b"").decode(errors="replace")[-300:].replace("\n", " | ")
             got = got[:cnt] + ["PROCESS-DIED rc=%s %s" % (p.returncode, tail)] * (cnt - len(got))
+            if p.returncode != 0 and len(got) == cnt and cnt:
+                # every case printed its line but the process did not end cleanly (a failure while it shut down): charge the last case
+                got[-1] = "PROCESS-DIED-AT-EXIT rc=%s %s" % (p.returncode, tail)
         res.extend(got)
     return res
 
